@@ -5,7 +5,7 @@
 
 use crate::c02::{self, CallPlan, CompCfg, Observed};
 use crate::handlers::Handler;
-use crate::nharness::{endpoint, net_and_connector, run_sim, spawn_server_hooked, ClientOpts, ServerOpts};
+use crate::nharness::{endpoint, net_and_connector, run_sim, spawn_server_incoming, ClientOpts, ServerOpts};
 use crate::rawcodec::RawMsg;
 use simcore::Sim;
 use simnet::NetCfg;
@@ -43,6 +43,11 @@ pub fn run(sim: &Sim, _idx: u64) {
     // connection (taken from the incoming stream before the signal) that already carries a call
     let edge = sim.chance(1, 4);
     let edge_at_us = sim.pick(&[0u64, 20, 1_000, 35_000, 90_000]);
+    // the listener may report accept errors at any time (they must neither stop the server nor let
+    // the serve future resolve early), and shutdown may also begin because the incoming stream
+    // *ends* instead of the signal firing (a graceful server still drains)
+    let accept_errors: Vec<u64> = if sim.chance(1, 4) { (0..sim.range(1, 3)).map(|_| sim.pick(&[0u64, 500, 20_000, 60_000, 150_000])).collect() } else { vec![] };
+    let end_incoming_instead = !edge && sim.chance(1, 5);
     sim.nontrivial();
     sim.sample(|| {
         format!(
@@ -51,7 +56,7 @@ pub fn run(sim: &Sim, _idx: u64) {
             plans.iter().map(|(c, off, p)| format!("conn{c}@{off}us {} latency={}us gap={}us resp={} end={:?}", c02::SHAPES[p.shape], p.script.latency_us, p.script.gap_us, p.script.msgs.len(), p.script.end.as_ref().map(|e| e.code))).collect::<Vec<_>>()
         )
     });
-    sim.ev(|| format!("config: connections={m} keep_channels={keep_channels} by_event={by_event} sig_at_us={sig_at_us} sig_after_entries={sig_after_entries}"));
+    sim.ev(|| format!("config: connections={m} keep_channels={keep_channels} by_event={by_event} sig_at_us={sig_at_us} sig_after_entries={sig_after_entries} edge={edge} accept_errors={accept_errors:?} end_incoming_instead={end_incoming_instead}"));
 
     let out = run_sim(sim, Duration::from_secs(100_000), || async {
         let (net, connector, rx) = net_and_connector(sim, netcfg, vec![]);
@@ -80,7 +85,37 @@ pub fn run(sim: &Sim, _idx: u64) {
                 }
             }))
         };
-        let srv = spawn_server_hooked(&handler, &no_comp(), &ServerOpts::default(), rx, Some(async move {
+        // the listener: connections from the connector are forwarded into the incoming stream, which
+        // the scenario can also feed with accept errors or end
+        let (inc_tx, inc_rx) = tokio::sync::mpsc::unbounded_channel::<Result<simnet::SimStream, std::io::Error>>();
+        let inc_tx: Arc<Mutex<Option<tokio::sync::mpsc::UnboundedSender<Result<simnet::SimStream, std::io::Error>>>>> = Arc::new(Mutex::new(Some(inc_tx)));
+        {
+            let inc_tx = inc_tx.clone();
+            let mut rx = rx;
+            tokio::spawn(async move {
+                while let Some(s) = rx.recv().await {
+                    let tx = inc_tx.lock().unwrap().clone();
+                    match tx {
+                        Some(tx) => {
+                            let _ = tx.send(Ok(s));
+                        }
+                        None => break, // listener closed: the stream (and with it the connection) is dropped
+                    }
+                }
+            });
+        }
+        for at in accept_errors.clone() {
+            let (inc_tx, sim2) = (inc_tx.clone(), sim.clone());
+            tokio::spawn(async move {
+                tokio::time::sleep(Duration::from_micros(at)).await;
+                if let Some(tx) = inc_tx.lock().unwrap().clone() {
+                    sim2.fault("accept-error");
+                    let _ = tx.send(Err(std::io::Error::new(sim2.pick(&[std::io::ErrorKind::Other, std::io::ErrorKind::ConnectionAborted, std::io::ErrorKind::OutOfMemory]), "simulated accept error")));
+                }
+            });
+        }
+        let incoming = tokio_stream::wrappers::UnboundedReceiverStream::new(inc_rx);
+        let srv = spawn_server_incoming(&handler, &no_comp(), &ServerOpts::default(), incoming, Some(async move {
             let _ = sig_rx.await;
         }), hook);
         // record the virtual instant at which the serve future resolves
@@ -151,7 +186,12 @@ pub fn run(sim: &Sim, _idx: u64) {
         }
         t_sig = edge_fired.lock().unwrap().unwrap_or_else(|| net.now());
         let entered_at_signal = handler.entered().len();
-        if let Some(tx) = sig_tx.lock().unwrap().take() {
+        if end_incoming_instead {
+            // the incoming stream ends; the signal itself never fires
+            sim.ev(|| format!("t={t_sig:?} INCOMING STREAM ENDS ({entered_at_signal} handlers entered so far)"));
+            sim.fault("incoming-stream-ends");
+            inc_tx.lock().unwrap().take();
+        } else if let Some(tx) = sig_tx.lock().unwrap().take() {
             sim.ev(|| format!("t={t_sig:?} SHUTDOWN SIGNAL ({entered_at_signal} handlers entered so far)"));
             let _ = tx.send(());
         }
